@@ -3,6 +3,7 @@ module nvharness
 go 1.19
 
 require (
+	github.com/cespare/xxhash/v2 v2.2.0
 	github.com/go-sql-driver/mysql v1.7.1
 	github.com/json-iterator/go v1.1.12
 	github.com/pinealctx/neptune v0.0.0
@@ -12,7 +13,6 @@ require (
 )
 
 require (
-	github.com/cespare/xxhash/v2 v2.2.0 // indirect
 	github.com/dgryski/go-rendezvous v0.0.0-20200823014737-9f7001d12a5f // indirect
 	github.com/eapache/queue v1.1.0 // indirect
 	github.com/golang/protobuf v1.5.3 // indirect
